@@ -46,7 +46,9 @@ def gen(rng, tier):
             if rng.random() < 0.25:
                 ts[k] = rng.choice(deps[:k])
         ts.sort()
-    wl = [[ts[k], rng.randint(0, 3), sizes[k], rng.choice([0, 0, 0.5, 1.0])] for k in range(n)]
+    hop = rng.random() < 0.4
+    wl = [[ts[k], rng.randint(0, 3), sizes[k], rng.choice([0, 0, 0.5, 1.0]), None, rng.choice([0, 1, 2]) if hop else 0]
+          for k in range(n)]
     case = {'engine': 'N', 'mode': mode, 'rate': rate, 'workload': wl, 'element_id': rng.choice(['port0', 'p', 'sw1.2'])}
     if rng.random() < 0.3:
         case['elem'] = 'REDPort'
